@@ -158,7 +158,7 @@ func init() {
 		Desc: "negotiated msize never exceeded (server: Tread/Treaddir boundary counts; client: request sizing against smaller offered msize)",
 		Run:  runC13,
 		Directed: func(string) int { return c13Cases() },
-		Quick:    24000, Thorough: 200000, QuickSecs: 60, ThorSecs: 900,
+		Quick:    24000, Thorough: 600000, QuickSecs: 60, ThorSecs: 900,
 		Rule:  "server: msize in {24, 64, 154, 155, 512, 4096, 8192, 64 KiB, 1 MiB, 4 MiB} x Tread/Treaddir count in {0, 1, msize-24..msize+11, 4 MiB, 4 MiB+1, 2^31, 2^32-1} x file / directory (content larger or smaller than msize) x offsets, plus random perturbations; client: ReadAt/WriteAt/Readdir/GetXattr sizes against fake servers announcing a smaller msize than requested. Oracle: wire monitor (every frame <= the msize in that connection's Rversion, active in every engine), reply is a shortened Rread/Rreaddir of whole entries carrying the right bytes/entries, or an Rlerror; client requests and the replies they solicit fit the announced msize. Input/configuration property: search over sizes, not schedules.",
 		Real:  []string{"p9.Server (tread, treaddir, send)", "p9.Client (chunking, payload size)", "p9 wire codec"},
 		Stub:  []string{"transport (simnet pipes)", "raw 9P peer / fake server (refcodec)", "backend tree (simfs)"},
